@@ -167,8 +167,9 @@ def run(ctx: Ctx):
         if isinstance(n, ast.Assert) and isinstance(n.test, ast.Compare) and isinstance(n.test.left, ast.Tuple) \
                 and isinstance(n.test.comparators[0], ast.Tuple):
             for l, r in zip(n.test.left.elts, n.test.comparators[0].elts):
-                if isinstance(l, ast.Call) and isinstance(l.func, ast.Attribute) and l.func.attr == "numel":
-                    asserted[u(l.func.value)] = pstr(nzk.poly(r))
+                for l_, r_ in ((l, r), (r, l)):  # either side may hold the .numel() calls
+                    if isinstance(l_, ast.Call) and isinstance(l_.func, ast.Attribute) and l_.func.attr == "numel":
+                        asserted[u(l_.func.value)] = pstr(nzk.poly(r_))
     col.floor("kernel_asserted_sizes", len(asserted), 3)
     for buf in ("ids", "logps", "logbs"):
         a, b = alloc.get(buf), asserted.get(buf)
